@@ -37,6 +37,7 @@ def run(ctx, res):
     pair(ctx, res)
     shift(ctx, res)
     sorted_rule(ctx, res)
+    sort_order_rule(ctx, res)
     drop_rule(ctx, res)
     res.notes.append("not decided: equivalence with the ordered-list model over all operation histories; hash/equality coherence of Q, Key and hashbrown (dependencies)")
 
@@ -355,6 +356,60 @@ def sorted_rule(ctx, res, insert_only=False):
         res.violation(rule, rule + "/erase-missing", str(e))
 
 
+def sort_order_rule(ctx, res):
+    """Object::sort orders by key and breaks ties by value (its documentation): the comparator passed to the sort is
+    interpreted with the key comparison and the value comparison as recorded cut points."""
+    P = ctx.P
+    rule = "C06.sortorder"
+    cl = [i for i in P.inst if i["path"].startswith("json_syntax::Object::sort::{closure#0}") and i.get("has_mir")]
+    if len(cl) != 1:
+        res.violation(rule, rule + "/missing", "the comparator closure of Object::sort was not found (%d candidates): the order it sorts by is undecided" % len(cl))
+        return
+    inst = cl[0]
+    et = [t for t in P.types if t.get("name") == "json_syntax::object::Entry" and t["s"] == "json_syntax::object::Entry<smallstr::string::SmallString<[u8; 16]>>"]
+    if len(et) != 1:
+        res.violation(rule, rule + "/anchors", "Entry type not found")
+        return
+    sh = shape.Shape(P)
+    sh.cut(r"^<json_syntax::Value as std::cmp::(Ord>::cmp|PartialOrd>::partial_cmp)$|^<json_syntax::Value as locspan::Stripped(Partial)?Ord>::stripped_(partial_)?cmp$", "valcmp", ret=lambda it, st, c, a_: Top(shape.ret_ty(it, c), "R"))
+    ka, va, kb, vb = Top(None, "ka"), Top(None, "va"), Top(None, "kb"), Top(None, "vb")
+    a = sh.cell(Agg(et[0]["id"], 0, (ka, va)))
+    b = sh.cell(Agg(et[0]["id"], 0, (kb, vb)))
+    envt = inst["locals"][1]
+    envt = P.types[envt]["to"] if P.types[envt]["k"] in ("ref", "ptr") else envt
+    try:
+        outs = sh.run(inst, [sh.cell(Agg(envt, 0, ())), a, b])
+    except Undecided as e:
+        res.violation(rule, rule + "/undecided", "undecided while interpreting the comparator of Object::sort: %s" % e, site=P.loc(inst["id"]))
+        return
+    results = []
+    ok = True
+    why = ""
+    for o in outs:
+        if not o.outcome or o.outcome[0] != "return":
+            ok, why = False, "a path of the comparator does not return (%r)" % (o.outcome,)
+            break
+        keyc = [e for e in o.events if e[0] == "ext" and re.search(r"SmallString<.*> as std::cmp::(Ord>::cmp|PartialOrd>::partial_cmp)$", e[3])]
+        valc = [e for e in o.events if e[0] == "valcmp"]
+        if len(keyc) != 1 or tuple(keyc[0][2]) != (ka, kb):
+            ok, why = False, "the keys of the two entries are not compared exactly once, left with right (%s)" % [(e[3][-50:], e[2]) for e in keyc]
+            break
+        rv = o.outcome[1]
+        if valc:
+            if len(valc) != 1 or tuple(valc[0][2]) != (va, vb) or not (isinstance(rv, Top) and rv.tag == "R"):
+                ok, why = False, "on equal keys the result is not the comparison of the two values, left with right (%r, returns %r)" % ([e[2] for e in valc], rv)
+                break
+            results.append("values")
+        else:
+            if not isinstance(rv, Agg):
+                ok, why = False, "result %r" % (rv,)
+                break
+            results.append(P.types[rv.ty]["variants"][rv.variant]["name"])
+    if ok and sorted(results) != ["Greater", "Less", "values"]:
+        ok, why = False, "the comparator's outcomes are %s; expected Less / Greater from the keys and the value comparison on equal keys (ties must be broken by value)" % sorted(results)
+    res.ob(ok, rule, rule + "/comparator", "Object::sort: %s" % why, site=P.loc(inst["id"]), sample={"sort_comparator": "key, then value on equal keys"})
+
+
 def drop_rule(ctx, res):
     P = ctx.P
     I = ctx.I
@@ -371,6 +426,19 @@ def drop_rule(ctx, res):
             continue
         reach = P.reachable([drops[0]["id"]])
         res.ob(any(n["id"] in reach for n in nexts), rule, "%s/%s/drains" % (rule, it_name), "Drop for %s does not run the iterator to its end" % it_name)
+        # ... to its *end*: an exhausting adaptor (last / count / for_each / fold) on the iterator itself, or `next` called in a loop
+        for d in drops:
+            exhausting = [c for bi, c, t in static.calls(P, d) if c is not None and re.search(r"^std::iter::Iterator::(last|count|for_each|fold)$", c["path"])]
+            looped = False
+            for bi, c, t in static.calls(P, d):
+                if c is not None and (c["id"] in [n["id"] for n in nexts] or re.search(r"as std::iter::Iterator>::next$", c["name"])):
+                    after = set()
+                    for sb in static.successors(d, bi):
+                        after |= static.reachable_blocks(d, sb)
+                    looped = looped or bi in after
+            res.ob(bool(exhausting) or looped, rule, "%s/%s/exhausts" % (rule, it_name),
+                   "Drop for %s advances the iterator at most once (no exhausting adaptor such as last(), no loop around next()): dropping it unconsumed leaves duplicates behind" % it_name,
+                   sample={"iterator": it_name, "drop_exhausts_with": [c["path"] for c in exhausting] or "loop around next()"})
         # next() removes through remove_at only
         for n in nexts:
             r = P.reachable([n["id"]], stop=lambda i: i["path"] == "json_syntax::Object::remove_at")
